@@ -329,7 +329,7 @@ func (tb *TB) build(v ssa.Value) *Term {
 		}
 		return mk("Un", x.Op.String(), v, tb.Term(x.X))
 	case *ssa.FieldAddr:
-		return mk("Field", fieldName(x.X.Type(), x.Field), v, tb.Term(x.X))
+		return mk("Field", fieldName(x.X.Type(), x.Field), v, tb.baseTerm(x.X))
 	case *ssa.Field:
 		return mk("Field", fieldName(x.X.Type(), x.Field), v, tb.Term(x.X))
 	case *ssa.IndexAddr:
@@ -424,7 +424,7 @@ func (tb *TB) load(x *ssa.UnOp) *Term {
 				return tb.Term(sts[0].Val)
 			}
 		}
-		t := mk("Field", fieldName(a.X.Type(), a.Field), x, tb.Term(a.X))
+		t := mk("Field", fieldName(a.X.Type(), a.Field), x, tb.baseTerm(a.X))
 		if tb.fieldUnstable(a) {
 			id, ok := tb.loadID[x]
 			if !ok {
@@ -476,6 +476,17 @@ func (tb *TB) load(x *ssa.UnOp) *Term {
 		return mk("Elem", "", x, tb.Term(a.X), tb.Term(a.Index))
 	}
 	return mk("Deref", "", x, tb.Term(x.X))
+}
+
+// baseTerm is Term for the base of a field access: a struct allocated in this
+// function is named by its type instead of being expanded.
+func (tb *TB) baseTerm(v ssa.Value) *Term {
+	if al, ok := v.(*ssa.Alloc); ok {
+		if _, isStruct := al.Type().(*types.Pointer).Elem().Underlying().(*types.Struct); isStruct {
+			return mk("New", typeString(al.Type().(*types.Pointer).Elem()), al)
+		}
+	}
+	return tb.Term(v)
 }
 
 // termIn builds the term of v, which lives in function f (f is tb.fn, its
@@ -842,7 +853,7 @@ func (tb *TB) fillInfo(ms ssa.Value, length ssa.Value) *FillInfo {
 				case name == "builtin append" && argIdx == 1:
 				case name == "builtin len" || name == "builtin cap":
 				case name == "invoke (crypto/cipher.AEAD).Seal" || name == "invoke (crypto/cipher.AEAD).Open":
-					if argIdx == 0 {
+					if argIdx == 0 && !lenZero {
 						writes++
 						fi.Reason = "used as AEAD dst"
 					}
@@ -1035,7 +1046,21 @@ func (tb *TB) makeSliceFrom(ms ssa.Value, length ssa.Value) *Term {
 	case "Copy":
 		return mk("Copy", "", ms, tb.Term(fi.Source), n)
 	case "Append0":
-		return mk("Make0", "", ms)
+		var capT *Term
+		switch m := ms.(type) {
+		case *ssa.MakeSlice:
+			capT = tb.Term(m.Cap)
+		case *ssa.Slice:
+			if al, ok := m.X.(*ssa.Alloc); ok {
+				if arr, ok := al.Type().(*types.Pointer).Elem().Underlying().(*types.Array); ok {
+					capT = mk("Const", strconv.FormatInt(arr.Len(), 10), nil)
+				}
+			}
+		}
+		if capT == nil || capT.Op != "Const" {
+			return mk("Make0", "", ms) // a non-constant capacity is only a hint
+		}
+		return mk("Make0", "", ms, capT)
 	}
 	return mk("Unknown", "buffer: "+fi.Reason, ms)
 }
